@@ -209,6 +209,29 @@ Theorem C06_step_mov_r64_m64 : forall decode c env s bytes i,
   end.
 Proof. exact step_mov_r64_m64. Qed.
 
+(* ... and for DIV r64 with a register divisor: the step fails with the divide error exactly when the
+   CPU raises #DE (zero divisor, quotient not fitting in 64 bits), nothing changed but the advanced RIP;
+   otherwise it succeeds with the architectural quotient and remainder; a register operand cannot
+   fault on memory, so no other outcome exists *)
+Theorem C06_step_div_r64 : forall decode c env s bytes i,
+  finished s = false ->
+  (match max_instr s with Some limit => limit <=? icount s | None => false end) = false ->
+  mem_read_executable_bytes (regs s RIP) s = (Ok bytes, s) ->
+  decode (regs s RIP) bytes = Some i ->
+  supported_mnemonic_try_from c (i_mnemonic i) (entered s i) = (Ok (i_mnemonic i), entered s i) ->
+  env (i_mnemonic i) = None ->
+  i_mnemonic i = M_Div -> i_code i = C_Div_rm64 ->
+  wf_regs s -> Inv (mem s) -> 0 <= i_next_ip i < 2 ^ 64 -> 0 <= icount s < 2 ^ 64 - 1 ->
+  i_op_count i = 1 -> i_op_kind i 0 = OK_Register -> is_gpr64 (i_op_register i 0) = true ->
+  match isa_exec (SDiv 64) i (entered s i) with
+  | IDone s1 _ => Exec.step decode switch_instruction_mnemonic supported_mnemonic_try_from c env s
+                  = (Ok (negb (finished (after_step s1))), after_step s1)
+  | IFault FDivide => Exec.step decode switch_instruction_mnemonic supported_mnemonic_try_from c env s
+                      = (Err EDivZero, entered s i)
+  | IFault _ => False
+  end.
+Proof. exact step_div_r64. Qed.
+
 Print Assumptions C06_rm64_source.
 Print Assumptions C06_div_rm64.
 Print Assumptions C06_idiv_rm64_partial.
@@ -223,3 +246,4 @@ Print Assumptions C06_idiv_rm16.
 Print Assumptions C06_idiv_rm8.
 Print Assumptions C06_vector_alignment.
 Print Assumptions C06_step_mov_r64_m64.
+Print Assumptions C06_step_div_r64.
